@@ -133,6 +133,7 @@ def run(ctx):
     shared.failed_cleanup_keeps_queue_order(ctx, '3')
     shared.no_log_handle_destroyed_in_cleanup(ctx, '3')   # also when a truncation fails: the logs not cleaned stay in front of the newer ones
     shared.torn_record_not_handed_over(ctx, '1')        # only complete records reach the stage that writes tables
+    shared.unsynced_log_never_abandoned(ctx, '1')       # F82: no newer log file beside one that could not be synced
     flush_is_not_skipped_wrongly(ctx, '2s')
     # every table the applier may write to is msynced by the column flush that precedes log truncation: besides the current index,
     # the value tables and the current ref-count table these are the OLD index / ref-count tables still queued for re-indexing
